@@ -3,8 +3,6 @@
 package cl
 
 import (
-	"fmt"
-
 	"github.com/ohler55/slip"
 )
 
@@ -128,8 +126,8 @@ func (f *ReadFromString) Call(s *slip.Scope, args slip.List, depth int) slip.Obj
 			end = len(ra)
 		}
 		if start < 0 || len(ra) < start || end < 0 || len(ra) < end || end < start {
-			panic(fmt.Sprintf("the bounding indices %d and %d are not valid for string of length %d",
-				start, end, len(ra)))
+			slip.ErrorPanic(s, depth, "the bounding indices %d and %d are not valid for string of length %d",
+				start, end, len(ra))
 		}
 		ra = ra[start:end]
 		buf = []byte(string(ra))
@@ -152,7 +150,7 @@ func (f *ReadFromString) Call(s *slip.Scope, args slip.List, depth int) slip.Obj
 		return slip.Values{code[0], slip.Fixnum(pos)}
 	}
 	if eofp {
-		panic(fmt.Sprintf("end of file on string %q", buf))
+		slip.EndOfFilePanic(s, depth, nil, "end of file on string %q", buf)
 	}
 	return slip.Values{eofv, slip.Fixnum(pos)}
 }
